@@ -658,6 +658,25 @@ func c16Run(r *hx.Run, bin string, seq *c16Seq, rnd *rand.Rand) {
 				return "loc_rewrite_set l1 /v2/$1 (same pattern, other replacement)"
 			},
 		}
+	case "ordered_lists_permuted":
+		// lists whose order matters (chained rewrite rules, repeated header lines, prefixes and hosts)
+		// are first set and then only permuted: a live update must apply the new order as a fresh start does
+		script = []func() string{
+			func() string {
+				l := &logical.Locations[1]
+				l.Rewrites = []string{l.Prefixes[0] + "/*:/mid/$1", "/mid/*:/end/$1"}
+				l.ReqHeaders = []string{"X-Added-Req:first", "X-Added-Req:second"}
+				l.RespHeaders = []string{"X-Added-Resp:first", "X-Added-Resp:second"}
+				return "loc_rewrite_set l1 chained rules [P/*:/mid/$1, /mid/*:/end/$1], two lines of one added header"
+			},
+			func() string {
+				l := &logical.Locations[1]
+				l.Rewrites = []string{"/mid/*:/end/$1", l.Prefixes[0] + "/*:/mid/$1"}
+				l.ReqHeaders = []string{"X-Added-Req:second", "X-Added-Req:first"}
+				l.RespHeaders = []string{"X-Added-Resp:second", "X-Added-Resp:first"}
+				return "same lists, order reversed"
+			},
+		}
 	case "upstream_h2c_toggled":
 		script = []func() string{
 			func() string { logical.Upstreams[1].EnableH2C = true; return "up_h2c_set u1" },
@@ -1000,7 +1019,7 @@ func c16Run(r *hx.Run, bin string, seq *c16Seq, rnd *rand.Rand) {
 }
 
 func c16(r *hx.Run) {
-	r.Rule = "two real pike processes per sequence. The live one starts on a base configuration (2 caches, 2 upstreams, 2 locations, 2 servers, 1 compress profile) and receives 2-6 random valid updates (32 mutation kinds: set/unset min length, filter, compress profile, cache, location list; add/remove server, location, upstream, compress profile; set/unset rewrites, added headers, added query, upstream Accept-Encoding, upstream enableH2C, upstream server list; override/remove bestCompression) through the admin PUT /config or a single in-place write of the file, each completion observed through the update.done hook, under continuous traffic on an unchanged server; the fresh one is started on the final configuration. A probe suite derived from the final configuration (servers x 4 prefixes x sizes around the effective threshold x 3 content types x cacheable or not x Accept-Encoding, each twice) is run against both and compared field by field (status, label, encoding, encoded and decoded bytes, headers, which origin saw which path/query/headers), plus cache binding between servers, the retained hit of a key cached before the updates, and (one sequence) that a removed server stops listening. Thirteen directed sequences add: a server re-added inside the graceful close of its old listener and an unrelated update 13 s later (it must be listening then), a rewrite rule whose replacement changes while its pattern stays, enableH2C of an upstream set, unset and set again, the last compress profile (an override of bestCompression) removed so that the whole section disappears from the saved file, bestCompression overridden then removed, a server removed and re-added, cache switch/rename, a level set then unset, two servers removed at once, a cache sharing a store removed, restart-only cache settings changed, and a configuration saved while the previous one (with an upstream whose health endpoint is slow) is still being applied. Non-trivial/distinct = step sequence."
+	r.Rule = "two real pike processes per sequence. The live one starts on a base configuration (2 caches, 2 upstreams, 2 locations, 2 servers, 1 compress profile) and receives 2-6 random valid updates (32 mutation kinds: set/unset min length, filter, compress profile, cache, location list; add/remove server, location, upstream, compress profile; set/unset rewrites, added headers, added query, upstream Accept-Encoding, upstream enableH2C, upstream server list; override/remove bestCompression) through the admin PUT /config or a single in-place write of the file, each completion observed through the update.done hook, under continuous traffic on an unchanged server; the fresh one is started on the final configuration. A probe suite derived from the final configuration (servers x 4 prefixes x sizes around the effective threshold x 3 content types x cacheable or not x Accept-Encoding, each twice) is run against both and compared field by field (status, label, encoding, encoded and decoded bytes, headers, which origin saw which path/query/headers), plus cache binding between servers, the retained hit of a key cached before the updates, and (one sequence) that a removed server stops listening. Fourteen directed sequences add: order-sensitive lists of a location (chained rewrite rules, two lines of one added header) set and then only permuted, a server re-added inside the graceful close of its old listener and an unrelated update 13 s later (it must be listening then), a rewrite rule whose replacement changes while its pattern stays, enableH2C of an upstream set, unset and set again, the last compress profile (an override of bestCompression) removed so that the whole section disappears from the saved file, bestCompression overridden then removed, a server removed and re-added, cache switch/rename, a level set then unset, two servers removed at once, a cache sharing a store removed, restart-only cache settings changed, and a configuration saved while the previous one (with an upstream whose health endpoint is slow) is still being applied. Non-trivial/distinct = step sequence."
 	r.Assume = []string{"restart-only settings (cache size/hit-for-pass/store, server log format, admin) are never changed", "gzip/brotli are deterministic, so equal levels give equal bytes", "addresses differ between the two processes and are not compared"}
 	bin, err := hx.BuildPike(r.Scratch)
 	if err != nil {
@@ -1012,7 +1031,7 @@ func c16(r *hx.Run) {
 	n := r.Pick(8, 400)
 	sem := make(chan struct{}, 8)
 	var wg sync.WaitGroup
-	for i := 0; i < n+13 && !r.TooMany(); i++ {
+	for i := 0; i < n+14 && !r.TooMany(); i++ {
 		seq := &c16Seq{ID: i, CheckRemovedListener: i%8 == 0}
 		if i == n {
 			seq.Directed = "best_override_then_remove"
@@ -1052,6 +1071,9 @@ func c16(r *hx.Run) {
 		}
 		if i == n+12 {
 			seq.Directed = "server_readd_then_later_update"
+		}
+		if i == n+13 {
+			seq.Directed = "ordered_lists_permuted"
 		}
 		seed := rnd.Int63()
 		wg.Add(1)
